@@ -258,3 +258,124 @@ pub mod verif_codec {
         }
     }
 }
+
+/// Verification hook for the ROUTER (add-only, compiled only with `--cfg libp2p_verif`): lets the
+/// external verification harness drive [`Behaviour`] the way the swarm does (handler events that
+/// went through the real codec, the real connection handler type), reach the crate-private
+/// backoff storage, and control the clock `backoff.rs` reads. No logic lives here.
+#[cfg(libp2p_verif)]
+pub mod verif {
+    use std::time::Duration;
+
+    use asynchronous_codec::{Decoder, Encoder};
+    use libp2p_identity::PeerId;
+
+    /// The generated protobuf types (all fields public).
+    pub use crate::rpc_proto::proto::gossipsub_pb as pb;
+    pub use crate::{
+        handler::{Handler, HandlerEvent, HandlerIn},
+        types::PeerKind,
+    };
+    use crate::{Config, TopicHash, protocol::GossipsubCodec};
+
+    /// Encodes `rpc` and decodes it again with the codec an inbound substream of `config` uses
+    /// (what `ProtocolConfig::upgrade_inbound` builds): the event the handler would hand to the
+    /// behaviour for these bytes.
+    pub fn rpc_event(config: &Config, rpc: pb::Rpc) -> Result<Option<HandlerEvent>, String> {
+        let pc = config.protocol_config();
+        let mut codec = GossipsubCodec::new(
+            pc.default_max_transmit_size,
+            pc.validation_mode,
+            pc.max_transmit_sizes,
+            pc.max_publish_messages,
+            pc.max_control_message_size,
+        );
+        let mut buf = bytes::BytesMut::new();
+        codec.encode(rpc, &mut buf).map_err(|e| e.to_string())?;
+        codec.decode(&mut buf).map_err(|e| e.to_string())
+    }
+
+    /// `backoff::BackoffStorage` (crate-private), method for method.
+    pub struct BackoffStorage(crate::backoff::BackoffStorage);
+
+    impl BackoffStorage {
+        pub fn new(prune_backoff: &Duration, heartbeat_interval: Duration, slack: u32) -> Self {
+            Self(crate::backoff::BackoffStorage::new(
+                prune_backoff,
+                heartbeat_interval,
+                slack,
+            ))
+        }
+
+        pub fn update_backoff(&mut self, topic: &TopicHash, peer: &PeerId, time: Duration) {
+            self.0.update_backoff(topic, peer, time)
+        }
+
+        pub fn is_backoff_with_slack(&self, topic: &TopicHash, peer: &PeerId) -> bool {
+            self.0.is_backoff_with_slack(topic, peer)
+        }
+
+        pub fn get_backoff_time(&self, topic: &TopicHash, peer: &PeerId) -> Option<clock::Instant> {
+            self.0.get_backoff_time(topic, peer)
+        }
+
+        pub fn heartbeat(&mut self) {
+            self.0.heartbeat()
+        }
+    }
+
+    /// Clock read by `backoff.rs` under the guard: the real instant plus a thread-local offset
+    /// that only the harness advances. Instants the unshimmed modules read from the real clock
+    /// "now" convert by adding the current offset.
+    pub mod clock {
+        use std::{cell::Cell, cmp::Ordering, time::Duration};
+
+        thread_local! {
+            static OFFSET: Cell<Duration> = const { Cell::new(Duration::ZERO) };
+        }
+
+        fn offset() -> Duration {
+            OFFSET.with(|o| o.get())
+        }
+
+        /// Move this thread's clock forward.
+        pub fn advance(duration: Duration) {
+            OFFSET.with(|o| o.set(o.get() + duration))
+        }
+
+        #[derive(Clone, Copy, Debug, PartialEq, Eq, PartialOrd, Ord)]
+        pub struct Instant(web_time::Instant);
+
+        impl Instant {
+            pub fn now() -> Self {
+                Instant(web_time::Instant::now() + offset())
+            }
+
+            pub fn checked_add(&self, duration: Duration) -> Option<Self> {
+                self.0.checked_add(duration).map(Instant)
+            }
+
+            pub fn saturating_duration_since(&self, earlier: impl Into<Instant>) -> Duration {
+                self.0.saturating_duration_since(earlier.into().0)
+            }
+        }
+
+        impl From<web_time::Instant> for Instant {
+            fn from(real: web_time::Instant) -> Self {
+                Instant(real + offset())
+            }
+        }
+
+        impl PartialEq<web_time::Instant> for Instant {
+            fn eq(&self, other: &web_time::Instant) -> bool {
+                *self == Instant::from(*other)
+            }
+        }
+
+        impl PartialOrd<web_time::Instant> for Instant {
+            fn partial_cmp(&self, other: &web_time::Instant) -> Option<Ordering> {
+                self.partial_cmp(&Instant::from(*other))
+            }
+        }
+    }
+}
